@@ -13,14 +13,47 @@ fn do_roots(ctx: &mut Ctx, f: &[BigInt], p: &BigInt, planted: Option<&[BigInt]>,
 fn run_roots(ctx: &mut Ctx, f: &[BigInt], p: &BigInt, planted: String, seed: u64, script: Vec<Vec<u8>>) {
     let pf = pz(f);
     let (ans, log) = run_rng(seed, script, || show_ints(&find_linear_factors::<BigInt>(&pf, p.clone())));
-    ctx.emit("pm.roots", &[show_pz(&pf), p.to_string(), planted, log], ans);
+    ctx.emit("pm.roots", &[show_pz(&pf), p.to_string(), planted.clone(), log], ans);
+    // the same generic routine at machine integers (what fits): i128 for p < 2^62, i64 for p < 2^30
+    use num::ToPrimitive;
+    let fits = |bits: u64| p.bits() <= bits && pf.dat.iter().all(|c| c.bits() <= bits);
+    if fits(61) && (ctx.lines.len() % 3 == 0) {
+        run_roots_machine(ctx, &pf.dat, p, &planted, true);
+    }
+    if fits(29) && (ctx.lines.len() % 3 == 1) {
+        run_roots_machine(ctx, &pf.dat, p, &planted, false);
+    }
+    let _ = 0u8.to_u8();
+}
+fn run_roots_machine(ctx: &mut Ctx, f: &[BigInt], p: &BigInt, planted: &str, wide: bool) {
+    use num::ToPrimitive;
+    let seed = ctx.rng.next();
+    let (ans, _log) = if wide {
+        let pf = rust_number_theory::polynomial::Polynomial::from_raw(f.iter().map(|c| c.to_i128().unwrap()).collect::<Vec<i128>>());
+        let pp = p.to_i128().unwrap();
+        run_rng(seed, vec![], || {
+            show_ints(&find_linear_factors::<i128>(&pf, pp).into_iter().map(BigInt::from).collect::<Vec<_>>())
+        })
+    } else {
+        let pf = rust_number_theory::polynomial::Polynomial::from_raw(f.iter().map(|c| c.to_i64().unwrap()).collect::<Vec<i64>>());
+        let pp = p.to_i64().unwrap();
+        run_rng(seed, vec![], || {
+            show_ints(&find_linear_factors::<i64>(&pf, pp).into_iter().map(BigInt::from).collect::<Vec<_>>())
+        })
+    };
+    ctx.emit(if wide { "pm.roots.i128" } else { "pm.roots.i64" }, &[show_ints(f), p.to_string(), planted.to_string()], ans);
 }
 
 pub fn replay(ctx: &mut Ctx, f: &[&str]) -> bool {
     match (f[0], f.len()) {
         ("pm.roots", 5) => {
             let script = parse_chunks(f[4]);
+            let n = ctx.lines.len();
             run_roots(ctx, &parse_ints(f[1]), &parse_int(f[2]), f[3].to_string(), 0, script);
+            ctx.lines.truncate(n + 1);
+        }
+        ("pm.roots.i128" | "pm.roots.i64", 4) => {
+            run_roots_machine(ctx, &parse_ints(f[1]), &parse_int(f[2]), f[3], f[0] == "pm.roots.i128");
         }
         _ => return false,
     }
